@@ -311,6 +311,7 @@ func runCase(t *testing.T, c *Case) (hist []string, violations []vh.Violation, t
 		l := mk(nil)
 		// reference for the direct oracle: what the four keys held after the previous op
 		prev := map[string]*pb.Entry{}
+		expOf := map[string][]int64{} // key|timestamp -> ExpiresAt values of the entries offered or logged with that timestamp
 		prevExp := map[string]int64{}
 		_ = prevExp
 		queryAll := func(now int64) map[string]*pb.Entry {
@@ -433,6 +434,28 @@ func runCase(t *testing.T, c *Case) (hist []string, violations []vh.Violation, t
 			cur := queryAll(now)
 
 			// ---- direct oracle (the property, stated on observations of the implementation) ----
+			for _, m := range offered {
+				ek := fmt.Sprintf("%s|%d|%d", string(m.Entry.GroupKey), recvIdx(m.Entry.Receiver), m.Entry.Timestamp.AsTime().UnixNano())
+				expOf[ek] = append(expOf[ek], m.ExpiresAt.AsTime().UnixNano())
+			}
+			if gcRan {
+				// entries are kept until their expiry and dropped by garbage collection afterwards
+				for k, q := range cur {
+					// judged only when every entry ever offered with this key and timestamp had expired (same-timestamp
+					// entries with different expiries are indistinguishable through Query)
+					if exps := expOf[fmt.Sprintf("%s|%d", k, q.Timestamp.AsTime().UnixNano())]; len(exps) > 0 && allCmp(exps, now, true) {
+						violations = append(violations, vh.Violation{Key: "expired-entry-survives-gc", What: fmt.Sprintf("op %d: GC at %d left an entry of %s that expired at %v", i, now, k, exps), Case: c})
+					}
+				}
+				for k, p := range prev {
+					if _, still := cur[k]; still {
+						continue
+					}
+					if exps := expOf[fmt.Sprintf("%s|%d", k, p.Timestamp.AsTime().UnixNano())]; len(exps) > 0 && allCmp(exps, now, false) {
+						violations = append(violations, vh.Violation{Key: "gc-dropped-unexpired-entry", What: fmt.Sprintf("op %d: GC at %d dropped an entry of %s that expires at %v", i, now, k, exps), Case: c})
+					}
+				}
+			}
 			for k, p := range prev {
 				q, ok := cur[k]
 				if !ok {
@@ -481,6 +504,16 @@ func runCase(t *testing.T, c *Case) (hist []string, violations []vh.Violation, t
 		}
 	})
 	return hist, violations, tags
+}
+
+// allCmp: expired=true -> every x <= now ; expired=false -> every x > now
+func allCmp(xs []int64, now int64, expired bool) bool {
+	for _, x := range xs {
+		if expired != (x <= now) {
+			return false
+		}
+	}
+	return true
 }
 
 func recvIdx(r *pb.Receiver) int {
